@@ -79,6 +79,25 @@ func (w *World) specSort(name, pkg string) (Sort, types.Type) {
 		}
 		return "(Slc " + s + ")", nil
 	}
+	if strings.HasPrefix(name, "gomap[") {
+		// a Go map value (a reference into the map heap): gomap[K]V
+		depth := 0
+		for i := 5; i < len(name); i++ {
+			if name[i] == '[' {
+				depth++
+			} else if name[i] == ']' {
+				depth--
+				if depth == 0 {
+					_, kg := w.specSort(name[6:i], pkg)
+					_, vg := w.specSort(name[i+1:], pkg)
+					if kg != nil && vg != nil {
+						return "Ref", types.NewMap(kg, vg)
+					}
+					return "Ref", nil
+				}
+			}
+		}
+	}
 	if strings.HasPrefix(name, "map[") {
 		// ghost map: pure array
 		depth := 0
@@ -747,7 +766,7 @@ func (e *Env) call(x ECall) Val {
 	case "typeIs":
 		// typeIs(x, pkg.Type)
 		v := e.tr(x.Args[0])
-		tn := exprString(x.Args[1])
+		tn := typeArgString(x.Args[1])
 		_, gt := w.specSort(tn, e.pkg)
 		if gt == nil {
 			e.fail("typeIs: unknown type %s", tn)
@@ -756,7 +775,7 @@ func (e *Env) call(x ECall) Val {
 	case "unbox":
 		// unbox(x, pkg.Type): payload of interface x as concrete type
 		v := e.tr(x.Args[0])
-		tn := exprString(x.Args[1])
+		tn := typeArgString(x.Args[1])
 		s, gt := w.specSort(tn, e.pkg)
 		return Val{T: "(" + w.payFn(s) + " " + v.T + ")", S: s, G: gt}
 	case "unboxRef":
@@ -988,4 +1007,13 @@ func (g *Gen) mgetFn(ks, vs Sort) string {
 	n := "mget_" + sanitize(ks) + "_" + sanitize(vs)
 	g.extraDecl(n, "(declare-fun "+n+" ((MapV "+ks+" "+vs+") "+ks+") "+vs+")\n(assert (forall ((m (MapV "+ks+" "+vs+")) (k "+ks+")) (! (= ("+n+" m k) (ite (select (map_dom m) k) (select (map_val m) k) "+g.w.zeroSort(vs)+")) :pattern (("+n+" m k)))))")
 	return n
+}
+
+// typeArgString: a type argument of typeIs/unbox is either a (qualified) name or, for types the
+// expression grammar cannot spell (gomap[string]string), a string literal.
+func typeArgString(e Expr) string {
+	if s, ok := e.(EStr); ok {
+		return s.V
+	}
+	return exprString(e)
 }
